@@ -72,6 +72,10 @@ func c01OneWith(k *core.Case, m *abs.Msg, ci int, mode int, raw libsa.Raw, src f
 		k.Violate("setup", "NewCrypto/Init refused a key of the negotiated size", fmt.Sprint(err1, err2), witness())
 		return
 	}
+	if k.Index%4 == 1 {
+		pokeAccessors(ks)
+		pokeAccessors(kr)
+	}
 	k.Eval(1)
 	var wire []byte
 	var err error
@@ -265,7 +269,8 @@ func c01(c *core.Ctx) {
 			c01OneWith(k, m, ci, 0, raw, src)
 		}
 	})
-	c.Require("searched_crypto_value_found", "sessions", "msg_object_completed-after-plain-encode", "msg_object_header-parsed-from-a-protected-datagram", "msg_object_object-decoded-from-another-datagram", "msg_object_NewMessage")
+	freshFamily(c, "C01", "fresh-process", c.N(3, 60))
+	c.Require("fresh_process_cases_ok", "searched_crypto_value_found", "sessions", "msg_object_completed-after-plain-encode", "msg_object_header-parsed-from-a-protected-datagram", "msg_object_object-decoded-from-another-datagram", "msg_object_NewMessage")
 	c.Family("nokey", c.N(8000, 2000000), func(k *core.Case) {
 		m := gen.Msg(k.R, gen.Opt{AllowBig: k.Index%9 == 0, AllowEmpty: true})
 		if k.Index%4 == 1 && len(m.Payloads) > 0 {
@@ -600,7 +605,8 @@ func c06(c *core.Ctx) {
 		k.Count("at_limit_protected_ok", 1)
 		k.Distinct(fmt.Sprintf("limit|ok|%s|%d", s.Name(), inner/16))
 	})
-	c.Require("searched_crypto_value_found", "payload_list_sent_in_three_messages", "at_limit_refused_with_error", "at_limit_protected_ok", "msg_object_completed-after-plain-encode", "msg_object_header-parsed-from-a-protected-datagram", "msg_object_object-decoded-from-another-datagram", "msg_object_NewMessage")
+	freshFamily(c, "C06", "fresh-process", c.N(3, 60))
+	c.Require("fresh_process_cases_ok", "searched_crypto_value_found", "payload_list_sent_in_three_messages", "at_limit_refused_with_error", "at_limit_protected_ok", "msg_object_completed-after-plain-encode", "msg_object_header-parsed-from-a-protected-datagram", "msg_object_object-decoded-from-another-datagram", "msg_object_NewMessage")
 }
 
 var _ = message.TypeSK
